@@ -270,7 +270,9 @@ func (r *Run) Schedule(ch Chooser) {
 			e.Quantum = 1
 		}
 		if e.JumpNs > 0 {
-			time.Sleep(time.Duration(e.JumpNs))
+			// a channel timer, not time.Sleep: with go1.26.8 Sleep inside an otherwise
+			// idle synctest bubble can die with "bad g->status in ready"
+			<-time.After(time.Duration(e.JumpNs))
 			r.SimTime += time.Duration(e.JumpNs)
 		}
 		r.Executed = append(r.Executed, e)
